@@ -294,6 +294,7 @@ def random_targets(rng, tree, tips, ard):
     for _ in range(n):
         desc = [b for b in range(1, nb + 1) if b != cur and cur in tree.chain(b)]
         others = [b for b in range(1, nb + 1) if cur not in tree.chain(b) and b not in tree.chain(cur)
+                  and tree.height[b] >= tree.height[cur]          # a best chain never gets shorter sideways
                   and tree.height[cur] - tree.height[tree.lca(cur, b)] <= ard + 1]
         anc = [b for b in tree.chain(cur)[:-1] if tree.height[cur] - tree.height[b] <= ard + 1]
         x = rng.random()
@@ -346,7 +347,8 @@ def sweep_histories(meta, ard):
             t = Tree(parent, txs)
             if not tree_valid(t, meta):
                 continue
-            targets = [la - 1, la] + [la + k for k in range(1, lb + 1)] if la > 1 else [la] + [la + k for k in range(1, lb + 1)]
+            # walk up A, back to the fork point, then up B block by block
+            targets = ([la - 1] if la > 1 else []) + [la, hr - 1] + [la + k for k in range(1, lb + 1)]
             out.append((t, targets))
             # same, but the role re-confirms one block later in the competing branch
             if lb >= 2:
